@@ -15,6 +15,7 @@
   replace each other, so changing one component changes the key.
 -/
 import Walleye.Proofs.MakeMoveKey
+import Walleye.Proofs.Start
 namespace Walleye
 
 /-! ### the mutators (board.rs:524-584), for every hasher -/
@@ -178,19 +179,6 @@ theorem key_sensitive_square (b : Board) (pt : Point) (v : Square) (hpt : OnBoar
 
 /-! ### non-vacuity: the start position (loaded by the model's FEN reader, real hasher constants)
     satisfies the invariant, so the theorems above apply to every game from the start position -/
-
-def startPosition : Pos :=
-  match fromFen Hasher.real Gen.defaultFen.toList with
-  | .ok p => p
-  | _ => default
-
-theorem start_ring : RingOK startPosition.board := by
-  intro r c hne
-  by_cases hb : r < 12 ∧ c < 12
-  · have key : ∀ r : Fin 12, ∀ c : Fin 12, startPosition.board.get r.val c.val ≠ .boundary →
-        (2 ≤ r.val ∧ r.val ≤ 9 ∧ 2 ≤ c.val ∧ c.val ≤ 9) := by decide +kernel
-    exact key ⟨r, hb.1⟩ ⟨c, hb.2⟩ hne
-  · exfalso; apply hne; unfold Board.get; rw [dif_neg hb]
 
 theorem start_inv : Inv Hasher.real startPosition := by
   refine ⟨start_ring, ?_, ?_⟩
